@@ -56,7 +56,13 @@ def literal_keys(tier):
         st.one_of(st.none(), st.none(), st.integers(0, 40)),
         st.one_of(st.just(b""), st.just(b""), st.binary(min_size=1, max_size=2)),
     )
-    return st.one_of(pool, pool, short, directed, directed, long_shared)
+    # keys of 25..29 bytes (and 32-byte keys sharing 9-11 nibbles): together with 1-3 byte values
+    # they give leaves whose RLP is 31..33 bytes because of the KEY, not the value
+    edge_key = st.builds(
+        lambda n, first, cut: (bytes([first]) + LONG_BASE[1:n]) if cut is None else LONG_BASE[:cut] + bytes([first]) + LONG_BASE[cut + 1:32],
+        st.integers(25, 30), st.sampled_from([0x01, 0x11, 0x81, 0xF1]), st.one_of(st.none(), st.none(), st.integers(4, 6)),
+    )
+    return st.one_of(pool, pool, short, directed, directed, long_shared, edge_key)
 
 
 def keyspecs(tier, near_weight=2):
@@ -112,7 +118,7 @@ def literal_values(tier):
         st.binary(min_size=1, max_size=40),
         st.builds(lambda n, f: f * n, edge_lens, fill),
         st.builds(lambda n, f: f * n, edge_lens, fill),
-        st.sampled_from([b"\x00", b"\x7f", b"\x80", b"\x01"]),
+        st.sampled_from([b"\x00", b"\x7f", b"\x80", b"\x01", b"\x81", b"\xff", b"\xc0", b"\x80\x80", b"\x7f\x7f\x7f"]),
         st.builds(lambda n, f: f * n, rlp_lens, fill),
         # values that look like node references or node encodings
         st.sampled_from([
@@ -215,6 +221,29 @@ def twin_fragments():
                      st.sampled_from([32, 33, 40, 20]), st.integers(0, 3), st.integers(0, 1))
 
 
+def edge_leaf_fragments():
+    """
+    A leaf whose RLP is 31..33 bytes because of a long KEY and a 1-3 byte value (also bytes
+    >= 0x80, whose RLP is two bytes), stored and then removed / overwritten / split.
+    """
+
+    def build(n, first, val, then, syn):
+        k = bytes([first]) + LONG_BASE[1:n]
+        ops = [("set", ("lit", k), ("lit", val), syn)]
+        if then == 0:
+            ops.append(("del", ("lit", k), syn))
+        elif then == 1:
+            ops.append(("set", ("lit", k), ("lit", b"other"), 1 - syn))
+        elif then == 2:
+            ops.append(("set", ("lit", bytes([first ^ 0x10]) + LONG_BASE[1:n]), ("lit", val), syn))
+            ops.append(("del", ("lit", k), syn))
+        return ops
+
+    return st.builds(build, st.integers(25, 30), st.sampled_from([0x01, 0x11, 0x81]),
+                     st.sampled_from([b"\x01", b"\x7f", b"\x80", b"\x81", b"\xff", b"\x80\x80", b"\x01\x02", b"\xff\xff\xff"]),
+                     st.integers(0, 3), st.integers(0, 1))
+
+
 def fan_items():
     """16 keys that differ in one nibble: a full branch node (all 16 children present)."""
     return st.builds(
@@ -276,9 +305,11 @@ def histories(tier, max_ops=None, batches=True, aborts=False, near_weight=2, sfx
     if looks:
         op = st.one_of([op] * 3 + [look_ops(tier)] * looks)
     mirror = mirror_fragments()
-    parts = [op] * 12 + [mirror] * mirror_weight + [fan_fragments()] + [twin_fragments()] * mirror_weight
+    parts = ([op] * 12 + [mirror] * mirror_weight + [fan_fragments()] + [twin_fragments()] * mirror_weight
+             + [edge_leaf_fragments()])
     if batches:
-        inner = st.lists(st.one_of([op] * 8 + [mirror] * mirror_weight + [twin_fragments()] * mirror_weight), max_size=8).map(
+        inner = st.lists(st.one_of([op] * 8 + [mirror] * mirror_weight + [twin_fragments()] * mirror_weight
+                                   + [edge_leaf_fragments()]), max_size=8).map(
             lambda fr: _flatten(fr, 12)
         )
         if aborts:
